@@ -12,8 +12,8 @@ use std::cell::RefCell;
 // ------------------------------------------------------------------ subscriber observer that can subscribe another one from inside its callback
 
 pub struct SubObs<N: FnOnce()> {
-  probe: Probe,
-  nested: Option<N>,
+  pub(crate) probe: Probe,
+  pub(crate) nested: Option<N>,
 }
 impl<T: IntoVal, E: IntoVal, N: FnOnce()> Observer<T, E> for SubObs<N> {
   fn next(&mut self, v: T) {
@@ -22,10 +22,17 @@ impl<T: IntoVal, E: IntoVal, N: FnOnce()> Observer<T, E> for SubObs<N> {
     }
     Observer::<T, E>::next(&mut self.probe, v)
   }
-  fn error(self, e: E) {
+  // a nested action that has not run yet runs in the terminal callback (the resubscribe-on-terminal pattern)
+  fn error(mut self, e: E) {
+    if let Some(n) = self.nested.take() {
+      n();
+    }
     Observer::<T, E>::error(self.probe, e)
   }
-  fn complete(self) {
+  fn complete(mut self) {
+    if let Some(n) = self.nested.take() {
+      n();
+    }
     Observer::<T, E>::complete(self.probe)
   }
   fn is_finished(&self) -> bool {
